@@ -37,5 +37,5 @@ PROP = dict(
                "correspondence only.",
     technique="Lean 4 theorems (case analysis, small stack-machine lemma) about a hand-written model + differential correspondence "
               "against the real front end and VM",
-    exhaustive=lambda tier: True,
+    exhaustive=lambda tier: False,
 )
